@@ -3,17 +3,17 @@ module verifharness
 go 1.21
 
 require (
+	github.com/kilic/bls12-381 v0.1.0
+	github.com/protolambda/bls12-381-util v0.1.0
 	github.com/protolambda/zrnt v0.0.0
 	github.com/protolambda/ztyp v0.2.2
+	gopkg.in/yaml.v3 v3.0.0
 )
 
 require (
 	github.com/holiman/uint256 v1.2.0 // indirect
-	github.com/kilic/bls12-381 v0.1.0 // indirect
 	github.com/minio/sha256-simd v0.1.0 // indirect
-	github.com/protolambda/bls12-381-util v0.1.0 // indirect
 	golang.org/x/sys v0.17.0 // indirect
-	gopkg.in/yaml.v3 v3.0.0 // indirect
 )
 
 replace github.com/protolambda/zrnt => /repo
